@@ -441,15 +441,30 @@ func (s *SSEServer) handleSSE(w http.ResponseWriter, r *http.Request) {
 	// Send initial connection message.
 	stream.SendComment("connection established")
 
+	// The writers below use w; none of them may still be running when this handler returns.
+	var writers sync.WaitGroup
+
 	// Start notification handler.
-	go handleNotifications(ctx, s.logger, w, flusher, session)
+	writers.Add(1)
+	go func() {
+		defer writers.Done()
+		handleNotifications(ctx, s.logger, w, flusher, session)
+	}()
 
 	// Start event queue handler.
-	go handleEventQueue(ctx, s.logger, w, flusher, session)
+	writers.Add(1)
+	go func() {
+		defer writers.Done()
+		handleEventQueue(ctx, s.logger, w, flusher, session)
+	}()
 
 	// Start keep-alive handler.
 	if s.keepAlive {
-		go handleKeepAlive(ctx, s.logger, w, flusher, session, s.keepAliveInterval)
+		writers.Add(1)
+		go func() {
+			defer writers.Done()
+			handleKeepAlive(ctx, s.logger, w, flusher, session, s.keepAliveInterval)
+		}()
 	}
 
 	// Wait for connection to close.
@@ -465,6 +480,7 @@ func (s *SSEServer) handleSSE(w http.ResponseWriter, r *http.Request) {
 	// Clean up resources.
 	closeSessionDone(s.logger, session)
 	s.sessions.Delete(sessionID)
+	writers.Wait()
 	s.logger.Debugf("Cleaned up session %s", sessionID)
 }
 
